@@ -136,6 +136,11 @@ class Session:
                 if getattr(ctx, "quantified", None):
                     s.check()           # restore the model of the instance-level problem
                 model = model_to_dict(s.model())
+                if getattr(ctx, "ghost", {}).get("lazy_axioms"):
+                    # axioms of symbolic sets / sorted() / universal ghost statements were instantiated
+                    # lazily (pyvc/floatsets.py): the model is a CANDIDATE, to be replayed natively
+                    model["__candidate__"] = "model of lazily instantiated set axioms: " + \
+                        str(ctx.ghost["lazy_axioms"])
                 known = None
                 if excuses:
                     ids = [e[0] for e in excuses]
